@@ -89,17 +89,8 @@ static F::PartialFactors randomPF(Rng & rng, const F::Factors & sp) {
 
 static void emit_merge(Rng & rng, const F::Factors & sp) {
     auto l = randomPF(rng, sp), r = randomPF(rng, sp);
-    // match() reads past the end of the longer key list when it is exhausted first (see DESIGN §12);
-    // only call it on the inputs its loop handles: give both a common last key so the scan terminates inside.
     auto m = F::merge(l, r);
-    bool mt = true;
-    {
-        // safe evaluation of match: pad with a sentinel common key beyond the space
-        auto l2 = l, r2 = r;
-        l2.first.push_back(sp.size()); l2.second.push_back(0);
-        r2.first.push_back(sp.size()); r2.second.push_back(0);
-        mt = F::match(l2, r2);
-    }
+    bool mt = F::match(l, r);
     Line o; o << "C14" << "merge"; o.nats(l.first); o.nats(l.second); o.nats(r.first); o.nats(r.second); o << "|"; o.nats(m.first); o.nats(m.second) << mt; o.emit();
 }
 
